@@ -49,7 +49,7 @@ def run(res: C.Result):
     rng = random.Random(res.seed)
     C.prove(res, extra_tb=["CPython text-file buffering and the host file system under process death are modelled (buffer lost on os._exit, pushed data kept) and validated by the real crashes"])
     quick = res.tier == "quick"
-    nruns = 4 if quick else 11
+    nruns = 6 if quick else 15
     stride = 5 if quick else 1
     dist = {"runs": [], "crash_points": 0, "operations": 0, "restart_window_hits": 0, "restart_docs_shrank": 0}
     coq_lines, meta = [], []
@@ -58,8 +58,13 @@ def run(res: C.Result):
     for ri in range(nruns):
         case = {"dir": str(root / f"ref{ri}"), "natoms": rng.randint(5, 8), "geom_seed": rng.randint(0, 999), "seed": rng.randint(1, 2 ** 31),
                 "mode": ["a", "w"][ri % 2], "mu": rng.choice([-0.05, 0.0, 0.05]), "bias": rng.choice([0.4, 0.5, 0.6]), "steps": 5 if quick else 7, "kill_at": None}
-        big = ri >= (3 if quick else 9)
-        if big:
+        big = ri == (3 if quick else 9)
+        if ri == (4 if quick else 10) or ri > (5 if quick else 11):
+            # a box that runs EMPTY (two atoms, deletions favoured): an empty system is a state like any other - one (zero-atom) frame per call
+            case.update(natoms=2, mode=["a", "w"][ri % 2], bias=0.1, mu=-8.0, steps=7)
+        elif ri == (5 if quick else 11):
+            case.update(mode="w", stale_files=True)      # output of a previous run under the same names
+        elif big:
             # a system large enough for the restart document to exceed the file buffer (8 KiB): part of a write reaches the disk before the call returns
             case.update(natoms=60, mode="w", steps=6, bias=0.35, mu=-0.05)
         elif ri % 3 == 2:
@@ -130,7 +135,7 @@ def run(res: C.Result):
             except json.JSONDecodeError as e:
                 res.fail(f"restart:after-call:{case['mode']}", f"after step {st['step']} (mode {case['mode']!r}) the restart file is not one JSON document: {e}", {"input": case, "observed": st["run.json"][-200:]})
         # ---- (2) real crashes
-        points = list(range(1, len(ops) + 1, stride if not big else 10 ** 9))
+        points = list(range(1, len(ops) + 1, stride if not (big or ri >= (4 if quick else 10)) else 10 ** 9))
         # always include the operations right after a restart truncate (the window) and right after log writes
         points += [gi + 1 for gi, (tag, name, _) in enumerate(ops) if tag == "restart" and name in ("truncate", "write")][:6 if quick else 1000]
         # ... and every operation of a restart rewrite whose document is SHORTER than its predecessor (the state shrank: a deletion was accepted)
